@@ -183,3 +183,93 @@ Definition c06_case (d : desc) (y : ydesc) (pre : pre_t) (ty : input_type) (ts :
   | Raise ValueError => Nat.eqb impl_outcome 1
   | Raise PreprocessorError => Nat.eqb impl_outcome 2
   end.
+
+(* ---------------- C20 / certificates ------------------------------------------------------- *)
+From ML Require Import LinAlg PSDConv.
+
+Definition f_eps : fl := PrimFloat.div PrimFloat.one (float_of_Z (2 ^ 52)).
+
+Definition sdp_code (r : sdp_result) : nat :=
+  match r with SdpDefinite => 0 | SdpNotDefinite => 1 | SdpNonPSD => 2 | SdpValueError => 3 end.
+Definition c20_sdp (w : list fl) (tol : option fl) (impl : nat) : bool :=
+  let t := match tol with Some t => t | None => @default_tol FOps f_eps w end in
+  Nat.eqb (sdp_code (@check_sdp FOps w t)) impl.
+
+Definition init_code (k : init_kind) : nat := match k with InitLda => 0 | InitPca => 1 | InitIdentity => 2 end.
+Definition c20_auto (has_classes : bool) (d n nc : nat) (ncls : Z) (impl : nat) : bool :=
+  Nat.eqb (init_code (auto_select_init has_classes d n nc ncls)) impl.
+
+Definition qmaxabs (A : list (list Q)) : Q :=
+  fold_right (fun r m => fold_right (fun a m' => if Qle_bool (qabs a) m' then m' else qabs a) m r) 0 A.
+Definition mclose (tol : Q) (A B : list (list Q)) : bool :=
+  all2 (fun r s => all2 (fun a b => qwithin a b tol) r s) A B.
+(* L^T L == M up to atol + rtol * max|M| *)
+Definition c20_factor (d : nat) (rtol atol : Q) (M L : list (list Q)) : bool :=
+  mclose (Qred (atol + rtol * qmaxabs M)) (@np_gram QOps d L) M.
+
+Fixpoint dedupQ (X : list (list Q)) : list (list Q) :=
+  match X with
+  | [] => []
+  | x :: X' => if existsb (fun y => all2 qeqb x y) X' then dedupQ X' else x :: dedupQ X'
+  end.
+Definition identQ (d : nat) : list (list Q) := @mident QOps d.
+Definition msymQ (tol : Q) (A : list (list Q)) : bool := mclose tol A (@transp QOps A).
+(* M is the (pseudo-)inverse of the covariance (divisor n-1) of the distinct points: Penrose equations *)
+Definition c20_cov_pinv (rtol : Q) (pts M : list (list Q)) : bool :=
+  let C := @cov QOps 1 (dedupQ pts) in
+  let CM := @mmulg QOps C M in let MC := @mmulg QOps M C in
+  let tC := Qred (rtol * qmaxabs C) in let tM := Qred (rtol * qmaxabs M) in
+  mclose tC (@mmulg QOps CM C) C && mclose tM (@mmulg QOps MC M) M &&
+  msymQ rtol CM && msymQ rtol MC.
+Definition c20_inverse (rtol : Q) (A B : list (list Q)) : bool :=
+  mclose rtol (@mmulg QOps A B) (identQ (length A)) && mclose rtol (@mmulg QOps B A) (identQ (length A)).
+(* symmetric positive definite, by exact LDL^T pivots of the symmetrised matrix *)
+Definition c_spd (rtol : Q) (M : list (list Q)) : bool :=
+  msymQ (Qred (rtol * qmaxabs M)) M && @is_pd QOps (@msym QOps M).
+(* positive semi-definite up to eps_rel * max|M| *)
+Definition c_psd (eps_rel : Q) (M : list (list Q)) : bool :=
+  @is_pd QOps (@add_eps_diag QOps (Qred (eps_rel * qmaxabs M + (1 # 1000000000000000000000000000000))) (@msym QOps M)).
+
+(* ---------------- C03 ---------------------------------------------------------------------- *)
+(* documented shape of components_: (n_components or n_features, n_features); fewer rows than
+   features without n_components only in SCML's low-rank case *)
+Definition shape_rule (nc : option nat) (d : nat) (lowrank_allowed : bool) (k dd : nat) : bool :=
+  Nat.eqb dd d &&
+  match nc with
+  | Some c => Nat.eqb k c
+  | None => if lowrank_allowed then (k <=? d) && (0 <? k) else Nat.eqb k d
+  end.
+Definition c03_case (nc : option nat) (d : nat) (lowrank_allowed : bool) (k dd : nat)
+    (kind_float finite returns_self : bool) (nfi n_in n_out k_out : nat) (M : list (list Q)) : bool :=
+  shape_rule nc d lowrank_allowed k dd && kind_float && finite && returns_self &&
+  Nat.eqb nfi d && Nat.eqb n_out n_in && Nat.eqb k_out k &&
+  msymQ (Qred (tol_1e12 * qmaxabs M)) M && c_psd tol_1e9 M.
+
+(* ---------------- C15 ---------------------------------------------------------------------- *)
+From ML Require Import SCML.
+Definition fclose (rtol atol a b : fl) : bool :=
+  PrimFloat.leb (PrimFloat.abs (PrimFloat.sub a b))
+    (PrimFloat.add atol (PrimFloat.mul rtol (PrimFloat.add (PrimFloat.abs a) (PrimFloat.abs b)))).
+Definition fvclose (rtol atol : fl) := all2 (fclose rtol atol).
+Definition f1em6 : fl := PrimFloat.div PrimFloat.one (float_of_Z 1000000).
+Definition f1em7 : fl := PrimFloat.div PrimFloat.one (float_of_Z 10000000).
+Definition f1em9 : fl := PrimFloat.div PrimFloat.one (float_of_Z 1000000000).
+Definition f1em12 : fl := PrimFloat.div PrimFloat.one (float_of_Z 1000000000000).
+
+(* result: 0 = agree, 1 = disagree, 2 = skipped (ill conditioned: a hinge test within 1e-6 of zero) *)
+Definition c15_run (gam bet : fl) (batch out_iter : nat) (B : list (list fl))
+    (trip : list (list fl * list fl * list fl)) (batches : list (list nat)) (best_w : list fl) : nat :=
+  let p := @Build_params FOps gam bet (PrimFloat.div PrimFloat.one (float_of_Z 1000)) batch out_iter in
+  let D := @dist_diff FOps B trip in
+  let nb := length B in
+  let s0 := @init FOps nb in
+  let margin := @run_margin FOps p D nb 0 batches s0 PrimFloat.one in
+  if PrimFloat.ltb margin f1em6 then 2
+  else match best (@run FOps p D nb 0 batches s0) with
+       | Some (_, bw) => if fvclose f1em7 f1em12 bw best_w && forallb (PrimFloat.leb PrimFloat.zero) best_w then 0 else 1
+       | None => 1
+       end.
+(* the learned metric is sum_i w_i b_i b_i^T (exact rationals, tolerance relative to max|M|) *)
+Definition c15_metric (d : nat) (wv : list Q) (B M : list (list Q)) : bool :=
+  forallb (Qle_bool 0) wv &&
+  mclose (Qred (tol_1e9 * qmaxabs M)) (@wgram QOps d wv B) M.
